@@ -215,8 +215,8 @@ def features(prog):
         k = e[0]
         if k == 'cmp':
             fs.add('Compare')
-            if e[3][0] in ('bin', 'inv'):
-                fs.add('Compare-with-BinOp-rhs')
+            if e[3][0] in ('bin', 'inv', 'cmp'):
+                fs.add('Compare-with-BinOp-rhs')       # any operator expression on the right (known finding c02-compare-precedence)
             if e[2][0] in ('bin', 'inv'):
                 fs.add('Compare-with-BinOp-lhs')
         if k in ('and', 'or'):
@@ -713,7 +713,15 @@ def unsupported_cases(draw, n_cycles):
             src = draw(st.sampled_from(prog['ins']))[0]
             return ['cmp', draw(st.sampled_from(['>', '!=', '!=', '==', '<='])), ['in', src], ['c', draw(st.sampled_from([0, 0, 1, 2]))]]
         rhs = draw(st.sampled_from([['c', 1], None, None]))
-        prog['body'].append(['out', o, ['bin', draw(st.sampled_from(['+', '+', '&', '|', '^'])), cmpv(), rhs or cmpv()]])
+        if draw(st.integers(0, 2)) == 0:
+            # a comparison of comparison results: (a == b) <= (c > 2), "p implies q" ... (parenthesised on the Python side)
+            # the right operand is an input or a constant: an operator expression there is the known finding
+            # c02-compare-precedence
+            src = draw(st.sampled_from(prog['ins']))[0]
+            prog['body'].append(['out', o, ['cmp', draw(st.sampled_from(['<=', '<', '>=', '>', '==', '!='])), cmpv(),
+                                            draw(st.sampled_from([['in', src], ['c', 0], ['c', 1]]))]])
+        else:
+            prog['body'].append(['out', o, ['bin', draw(st.sampled_from(['+', '+', '&', '|', '^'])), cmpv(), rhs or cmpv()]])
     elif which == 'nonconst_init':
         prog['state'].append(['sz', 0])
         prog['init_expr'] = {'sz': '1 + 2'}
